@@ -46,3 +46,9 @@ Fac/Basis.vos Fac/Basis.vok Fac/Basis.required_vos: Fac/Basis.v Fac/Gauss.vos LP
 Fac/BasisSound.vo Fac/BasisSound.glob Fac/BasisSound.v.beautified Fac/BasisSound.required_vo: Fac/BasisSound.v Fac/Basis.vo Fac/GaussSound.vo LP/OptTestSound.vo
 Fac/BasisSound.vio: Fac/BasisSound.v Fac/Basis.vio Fac/GaussSound.vio LP/OptTestSound.vio
 Fac/BasisSound.vos Fac/BasisSound.vok Fac/BasisSound.required_vos: Fac/BasisSound.v Fac/Basis.vos Fac/GaussSound.vos LP/OptTestSound.vos
+Fac/Factor.vo Fac/Factor.glob Fac/Factor.v.beautified Fac/Factor.required_vo: Fac/Factor.v Fac/GaussSound.vo
+Fac/Factor.vio: Fac/Factor.v Fac/GaussSound.vio
+Fac/Factor.vos Fac/Factor.vok Fac/Factor.required_vos: Fac/Factor.v Fac/GaussSound.vos
+Fac/FactorSound.vo Fac/FactorSound.glob Fac/FactorSound.v.beautified Fac/FactorSound.required_vo: Fac/FactorSound.v Fac/Factor.vo
+Fac/FactorSound.vio: Fac/FactorSound.v Fac/Factor.vio
+Fac/FactorSound.vos Fac/FactorSound.vok Fac/FactorSound.required_vos: Fac/FactorSound.v Fac/Factor.vos
